@@ -306,11 +306,11 @@ func TestVerify(t *testing.T) {
 // ---- complete grids ----
 
 type gridCase struct {
-	I, J       int // torsion indices for A and R
-	EA, ER     int // encoding indices
-	AZero      bool
-	RZero      bool
-	JL         int // add JL*L to S (0 = none)
+	I, J   int // torsion indices for A and R
+	EA, ER int // encoding indices
+	AZero  bool
+	RZero  bool
+	JL     int // add JL*L to S (0 = none)
 }
 
 func (g gridCase) build() (sigCase, bool) {
